@@ -16,8 +16,11 @@ and, over the stream-machine model `BV.Stream` (section "over the stream-machine
 `unwrapped_entry_points_cannot_panic` in full, `ffi_refines_requests` (the wrapper performs exactly
 the Rust call on the same state with the caller's bytes and hands back its results — byte identity
 then follows from `compress_stream` being a function of its arguments; the harness still compares
-the real bytes call by call, `ffi:bytes-differ`), and `ffi_cursor_exact_stream` (the hypothesis
-`CursorsAgree` is a theorem for PROCESS / FLUSH / FINISH).
+the real bytes call by call, `ffi:bytes-differ`), `ffi_cursor_exact_stream` (the hypothesis
+`CursorsAgree` is a theorem for all four operations, accepted or refused calls, with no hypothesis
+on the payload encoder), `total_tracks_stream` / `total_out_cell_stream` (the hypothesis
+`TotalTracks` is a theorem) and `total_out_is_sum_stream` (along any history of C ABI calls
+`*total_out` is the number of bytes delivered so far, `take_output` bytes INCLUDED, modulo 2^64).
 `catch_unwind` itself, the `extern "C"` ABI and the validity of the caller's pointers are runtime
 facts outside the model.
 -/
@@ -292,11 +295,15 @@ theorem ffi_independent_of_addresses (o : Oracle) (fuel : Nat) (s : St) (mem1 me
   | panic => simp [BV.FFI.compressStream, ansOfStream]
   | fuel => simp [BV.FFI.compressStream, ansOfStream]
 
-/-- `ffi_cursor_exact` for the modelled machine: for PROCESS / FLUSH / FINISH from a good state the
-hypothesis `CursorsAgree` is a theorem (cursor balance of `BV.Stream.compressStream`), so both
-pointers advance by exactly the decrease of their counters -/
-theorem ffi_cursor_exact_stream (o : Oracle) {B : Nat} (hB : OracleBounded o B) (fuel : Nat) (s : St) (mem : Mem)
-    (op : Nat) (hop : op ≤ 2) (c : StreamCall) (hG : Good s)
+/-- `ffi_cursor_exact` for the modelled machine, ALL FOUR operations (PROCESS / FLUSH / FINISH /
+EMIT_METADATA), accepted or refused calls, from a fresh instance or any state satisfying the
+invariant, with NO hypothesis on the payload encoder: the hypothesis `CursorsAgree` is a theorem
+(byte ledger of `BV.Stream.compressStream`, `Lemmas/StreamTotal`), so both pointers advance by
+exactly the decrease of their counters; the bytes stored at `*next_out` are as many as
+`available_out` lost; and the part of the input slice the callee has not read is the caller's slice
+minus its first `available_in(before) - available_in(after)` bytes (the Rust `input_offset`) -/
+theorem ffi_cursor_exact_stream (o : Oracle) (fuel : Nat) (s : St) (mem : Mem)
+    (op : Nat) (hop : op ≤ 3) (c : StreamCall) (hR : IsFresh s ∨ Inv s)
     (hlen : (inputSlice mem c.nextIn c.availIn).length = c.availIn)
     (hw : s.inputPos + c.availIn < two64)
     (s' : St) (io' : Io) (r : Bool)
@@ -305,17 +312,83 @@ theorem ffi_cursor_exact_stream (o : Oracle) {B : Nat} (hB : OracleBounded o B) 
         = some (p + (c.availIn - (ffiCompressStream o fuel s mem op c).2.1.availIn))) ∧
     (∀ p, c.nextOut = some p → (ffiCompressStream o fuel s mem op c).2.1.nextOut
         = some (p + (c.availOut - (ffiCompressStream o fuel s mem op c).2.1.availOut))) ∧
-    (ffiCompressStream o fuel s mem op c).2.2.length = c.availOut - (ffiCompressStream o fuel s mem op c).2.1.availOut := by
-  have hca := cursorsAgree_of_stream c hop hG hlen (by rw [hlen]; exact hw) hB h
+    (ffiCompressStream o fuel s mem op c).2.2.length = c.availOut - (ffiCompressStream o fuel s mem op c).2.1.availOut ∧
+    (ffiCompressStream o fuel s mem op c).2.1.availIn ≤ c.availIn ∧
+    io'.input = (inputSlice mem c.nextIn c.availIn).drop (c.availIn - (ffiCompressStream o fuel s mem op c).2.1.availIn) := by
+  obtain ⟨hca, hin⟩ := cursorsAgree_of_stream_all c hop hR hlen (by rw [hlen]; exact hw) h
   have hca' : CursorsAgree { c with encTotal := s.totalOut } (ansOfStream c.availIn c.availOut (.ok (s', io', r))) := ⟨hca.inEq, hca.outEq⟩
-  obtain ⟨_, _, e3, e4, _, _⟩ := ffi_cursor_exact { c with encTotal := s.totalOut } _ (by simp [ansOfStream]) hca'
+  obtain ⟨e1, _, e3, e4, _, _⟩ := ffi_cursor_exact { c with encTotal := s.totalOut } _ (by simp [ansOfStream]) hca'
   unfold ffiCompressStream
   simp only [h]
-  refine ⟨e3, e4, ?_⟩
-  have := hca.outEq
-  simp only [ansOfStream] at this
-  simp only [BV.FFI.compressStream, ansOfStream, Bool.false_eq_true, if_false]
-  omega
+  refine ⟨e3, e4, ?_, e1, ?_⟩
+  · have := hca.outEq
+    simp only [ansOfStream] at this
+    simp only [BV.FFI.compressStream, ansOfStream, Bool.false_eq_true, if_false]
+    omega
+  · simp only [BV.FFI.compressStream, ansOfStream, Bool.false_eq_true, if_false]
+    exact hin
+
+/-- the hypothesis `TotalTracks` of `total_out_is_sum` is a theorem of the modelled machine — all four
+operations, no hypothesis on the payload encoder — as long as the 64-bit counter cannot wrap in this
+call (fewer than 2^64 bytes delivered so far plus the capacity offered) -/
+theorem total_tracks_stream (o : Oracle) (fuel : Nat) (s : St) (mem : Mem) (op : Nat) (hop : op ≤ 3) (c : StreamCall)
+    (hR : IsFresh s ∨ Inv s) (hlen : (inputSlice mem c.nextIn c.availIn).length = c.availIn)
+    (hw : s.inputPos + c.availIn < two64) (hnw : s.totalOut + c.availOut < two64)
+    (s' : St) (io' : Io) (r : Bool)
+    (h : BV.Stream.compressStream o fuel s op (inputSlice mem c.nextIn c.availIn) c.availOut = .ok (s', io', r)) :
+    TotalTracks { c with encTotal := s.totalOut } (ansOfStream c.availIn c.availOut (.ok (s', io', r))) :=
+  totalTracks_of_stream c hop hR (by rw [hlen]; exact hw) hnw h
+
+/-- `total_out_is_sum`, one call, over the modelled machine and exact in 64-bit arithmetic: a stream
+call (any operation, accepted or refused) made with a non-null `total_out` leaves in `*total_out` the
+instance's `total_out_`, and that is the value before the call plus the bytes this call stored at
+`*next_out`, wrapping at 2^64 — also when it stored nothing.  No hypothesis on the Rust call. -/
+theorem total_out_cell_stream (o : Oracle) (fuel : Nat) (s : St) (mem : Mem) (op : Nat) (hop : op ≤ 3) (c : StreamCall)
+    (hR : IsFresh s ∨ Inv s) (hlen : (inputSlice mem c.nextIn c.availIn).length = c.availIn)
+    (hw : s.inputPos + c.availIn < two64) (hT : s.totalOut < two64) (hptr : c.totalOutPtr = true)
+    (s' : St) (io' : Io) (r : Bool)
+    (h : BV.Stream.compressStream o fuel s op (inputSlice mem c.nextIn c.availIn) c.availOut = .ok (s', io', r)) :
+    (ffiCompressStream o fuel s mem op c).2.1.totalOutCell = s'.totalOut ∧
+    s'.totalOut = (s.totalOut + (ffiCompressStream o fuel s mem op c).2.2.length) % two64 := by
+  have hw0 : s.inputPos + (inputSlice mem c.nextIn c.availIn).length < two64 := by rw [hlen]; exact hw
+  refine ⟨ffi_cell_is_total o fuel s mem op c s' io' r hptr hT hR hop hw0 h, ?_⟩
+  rw [(ffiCompressStream_ok o fuel s mem op c h).2]
+  exact totalOut_of_stream s.totalOut hop hR hw0 (Nat.mod_eq_of_lt hT).symm h
+
+/-- what `BrotliEncoderTakeOutput` does to the total: the bytes it hands out by pointer ARE counted
+into `total_out_` (encode.rs `take_output`: `total_out_ += consumed_size`), exactly like bytes copied
+to `next_out` — so `*total_out` of the next stream call includes them -/
+theorem take_output_counts_into_total (s s' : St) (size n : Nat) (bytes : List Nat)
+    (h : ffiTakeOutput s size = .ok (s', n, bytes)) :
+    s'.totalOut = (s.totalOut + n) % two64 ∨ (n = 0 ∧ s' = s) := by
+  have hn : n = bytes.length := by
+    unfold ffiTakeOutput at h
+    split at h
+    · simp only [Out.ok.injEq, Prod.mk.injEq] at h; obtain ⟨_, h2, h3⟩ := h; rw [← h2, ← h3]
+    · simp at h
+    · simp at h
+  rcases take_total (ffiTakeOutput_ok h) with h1 | ⟨h1, h2⟩
+  · left; rw [hn]; exact h1
+  · right; exact ⟨by rw [hn, h1]; rfl, h2⟩
+
+/-- `total_out_is_sum` over the modelled machine (`total_out_is_sum_stream`): on an instance that
+starts fresh, after ANY history of `SetParameter` / `CompressStream` (PROCESS, FLUSH, FINISH,
+EMIT_METADATA; accepted or refused; any capacities, null pointers with zero counts) / `TakeOutput` /
+`HasMoreOutput` / `IsFinished` calls in which no Rust call unwound, every value a stream call left in
+`*total_out` equals the number of bytes delivered to the caller up to and including that call —
+bytes stored at `*next_out` PLUS bytes handed out by `TakeOutput` — modulo 2^64, and so does the
+instance's `total_out_` at the end.  The hypothesis `TotalTracks` of `total_out_is_sum` is gone; the
+only hypotheses left are the caller's (operation codes in range, input pointers address
+`available_in` bytes, fewer than 2^64 bytes offered in total). -/
+theorem total_out_is_sum_stream (o : Oracle) (fuel : Nat) (mem : Mem) (calls : List FfiCall) (s0 : St)
+    (hf : IsFresh s0) (hok : FfiHistOK mem calls) (hw : ffiHistLen calls < two64)
+    (s : St) (seen : FfiSeen) (h : ffiRun o fuel mem calls s0 {} = some (s, seen)) :
+    (∀ x ∈ seen.cells, x.1 = x.2 % two64) ∧ s.totalOut = seen.delivered.length % two64 := by
+  obtain ⟨_, _, hip, _, _⟩ := isFresh_fields hf
+  have hT0 : s0.totalOut = ([] : List Nat).length % two64 := by
+    obtain ⟨p, rfl⟩ := hf; rfl
+  obtain ⟨h1, h2⟩ := ffiRun_total (runOK_fresh hf) hok (by rw [hip]; omega) hT0 (by intro x hx; cases hx) h
+  exact ⟨h2, h1⟩
 
 end OverStream
 
@@ -330,5 +403,18 @@ example : historyOK 40 [(⟨5, some 1000, 10, some 2000, true, 0, 40⟩, ⟨5, 0
   ⟨rfl, rfl, rfl, rfl, rfl, rfl, rfl, rfl, trivial⟩
 example : handOut [1, 2, 3, 4, 5] [.take 2, .push 1, .take 0] = ([[1, 2], [3], [4, 5]], []) := rfl
 example : multiDispatch 32 = .multi 16 := rfl
+
+/-- a concrete history through `ffiRun` (quality 5; the payload encoder answers 41 one-bits): PROCESS
+3 bytes with no output room, FLUSH into 2 bytes, `TakeOutput(1)`, a 2-byte metadata block in two
+calls (the first is refused: the flush is still draining), FINISH.  The cell after the refused call
+is 3 although only 2 bytes went through `next_out`: the byte taken by pointer is counted. -/
+example : (ffiRun (fun _ _ => { bits := List.replicate 41 true }) 100 (fun _ n => List.replicate n 65)
+      [.setParam 1 5, .stream 0 ⟨3, some 1000, 0, none, true, 7, 0⟩, .stream 1 ⟨0, none, 2, some 100, true, 0, 0⟩, .take 1,
+       .stream 3 ⟨2, some 1000, 10, some 100, true, 0, 0⟩, .stream 3 ⟨2, some 1000, 10, some 100, true, 0, 0⟩,
+       .stream 2 ⟨0, none, 10, some 100, true, 0, 0⟩] BV.Stream.St.new {}).map (fun x => (x.2.cells, x.2.delivered.length, x.1.totalOut))
+    = some ([(0, 0), (2, 2), (3, 3), (3, 3), (7, 7)], 7, 7) := by decide +kernel
+example : FfiHistOK (fun _ n => List.replicate n 65) [.setParam 1 5, .stream 0 ⟨3, some 1000, 0, none, true, 7, 0⟩, .take 1] :=
+  ⟨by decide, by simp [inputSlice], trivial⟩
+example : BV.Stream.IsFresh (BV.Stream.setParameter BV.Stream.St.new 1 5).1 := BV.Stream.setParameter_fresh ⟨{}, rfl⟩ 1 5
 
 end BV.Props.C13
